@@ -42,9 +42,12 @@ type MemCtx struct {
 	cache map[[2]int]*Term
 	rom   func(a *Term) (*Term, bool) // read-only regions (string constants, imported tables)
 	liftDepth int
+	small     map[*Term][2]int64 // hint: term known to take few values (case-split in addresses)
 }
 
-func NewMemCtx(tb *TB) *MemCtx { return &MemCtx{tb: tb, cache: map[[2]int]*Term{}} }
+func NewMemCtx(tb *TB) *MemCtx {
+	return &MemCtx{tb: tb, cache: map[[2]int]*Term{}, small: map[*Term][2]int64{}}
+}
 
 func (mc *MemCtx) node(m *Mem) *Mem {
 	m.id = mc.next
@@ -143,6 +146,11 @@ func (mc *MemCtx) Read8(m *Mem, a *Term) *Term {
 			return r
 		}
 	}
+	if !a.bound && len(mc.small) > 0 && mc.liftDepth < 3 {
+		if r, ok := mc.expandSmall(m, a); ok {
+			return r
+		}
+	}
 	key := [2]int{m.id, a.id}
 	if !a.bound {
 		if t, ok := mc.cache[key]; ok {
@@ -237,4 +245,35 @@ func (mc *MemCtx) splitIteAddr(a *Term) (*Term, *Term, *Term, bool) {
 		return at.args[0], x, y, true
 	}
 	return nil, nil, nil, false
+}
+
+// expandSmall: an address containing a term hinted to range over a few values
+// is read by cases; the final alternative keeps the symbolic read, so the
+// expansion is sound whatever the hint.
+func (mc *MemCtx) expandSmall(m *Mem, a *Term) (*Term, bool) {
+	tb := mc.tb
+	l := tb.toLin(a)
+	for i, at := range l.atoms {
+		rng, ok := mc.small[at]
+		if !ok {
+			continue
+		}
+		rest := lin{w: l.w, c: l.c}
+		rest.atoms = append(append([]*Term{}, l.atoms[:i]...), l.atoms[i+1:]...)
+		rest.coef = append(append([]*big.Int{}, l.coef[:i]...), l.coef[i+1:]...)
+		base := tb.fromLin(rest)
+		k := tb.Const(l.coef[i], l.w)
+		// fallback: the symbolic read, with this hint disabled
+		delete(mc.small, at)
+		mc.liftDepth++
+		r := mc.Read8(m, a)
+		for v := rng[1]; v >= rng[0]; v-- {
+			c := tb.ConstI(v, l.w)
+			r = tb.Ite(tb.Eq(at, c), mc.Read8(m, tb.Add(base, tb.Mul(c, k))), r)
+		}
+		mc.liftDepth--
+		mc.small[at] = rng
+		return r, true
+	}
+	return nil, false
 }
